@@ -74,6 +74,33 @@ MUTANTS = [
 """], ['C15']),
     ('data_checked_add_two', 'macros/src/data.rs', 'last.checked_add(1)', 'last.checked_add(2)', ['C15']),
     ('data_component_name_from_archetype', 'macros/src/data.rs', 'name: component.name.to_string(),', 'name: archetype.name.to_string(),', ['C15']),
+    ('tmpl_destroy_version_outside_loop', 'macros/src/generate/query.rs', ["""                    let len = archetype.len();
+
+                    // Iterate in reverse order to still visit each entity once.""", """                        // The version changes whenever we destroy, so refresh it each step.
+                        let version = archetype.version();
+"""], ["""                    let version = archetype.version();
+                    let len = archetype.len();
+
+                    // Iterate in reverse order to still visit each entity once.""", ""], ['C07', 'C09']),
+    ('tmpl_destroy_forward_loop', 'macros/src/generate/query.rs', 'for idx in (0..len).rev() {', 'for idx in 0..len {', ['C07']),
+    ('tmpl_destroy_break_not_return', 'macros/src/generate/query.rs', """                            EcsStepDestroy::Break => {
+                                return;""", """                            EcsStepDestroy::Break => {
+                                break;""", ['C07']),
+    ('tmpl_iter_break_not_return', 'macros/src/generate/query.rs', """                            EcsStep::Break => {
+                                return;""", """                            EcsStep::Break => {
+                                break;""", ['C06']),
+    ('tmpl_bind_entity_wrong_index', 'macros/src/generate/query.rs', """        ParseQueryParamType::EntityWild => {
+            quote!(&slices.entity[idx])
+        }
+        ParseQueryParamType::EntityDirect(_) => {
+            quote!(&::gecs::__internal::new_entity_direct::<MatchedArchetype>(idx, version))""", """        ParseQueryParamType::EntityWild => {
+            quote!(&slices.entity[len - 1 - idx])
+        }
+        ParseQueryParamType::EntityDirect(_) => {
+            quote!(&::gecs::__internal::new_entity_direct::<MatchedArchetype>(idx, version))""", ['C06', 'C07']),
+    ('tmpl_destroy_wrong_entity', 'macros/src/generate/query.rs', """                            EcsStepDestroy::ContinueDestroy => {
+                                let entity = slices.entity[idx];""", """                            EcsStepDestroy::ContinueDestroy => {
+                                let entity = slices.entity[0];""", ['C07']),
     ('panic_in_critical_section', ST, 'self.version = next_version;', 'self.version = self.version.next();', ['C10']),
 ]
 
